@@ -29,6 +29,8 @@ func init() {
 }
 
 func runC18(c *an.Ctx) {
+	r7ResponseContentType(c, "R5")
+	r7CloseOnce(c, "R2")
 	if c.P.Pkg("http") == nil || c.P.Func("http.WrapHandler") == nil {
 		if c.P.Cfg.Name == "tinygo" {
 			c.Note("R1", "http middleware", 0, "the net/http middleware is excluded from the tinygo build (//go:build !tinygo): nothing to check in this configuration")
